@@ -1,6 +1,9 @@
 import Autog.Properties.C11
 import Autog.Lemmas.Listed
 import Autog.Lemmas.BreakProper
+import Autog.Lemmas.LayeredPipeline
+import Autog.Properties.C04
+import Autog.Properties.C12
 /-! # C01 (continued) — the chain "for every input" through the cutting of long edges, for the LongestPath layerer
 
     `Properties/C01.lean` proves that for every non-empty edge list pre-processing, phase 1 and (with the LongestPath layerer)
@@ -372,6 +375,128 @@ theorem C03_longestpath_proper_after_phase3_any_input (cfg : Cfg) (es : InEdges)
           simp only [ho, Except.map, Except.ok.injEq] at h3
           subst h3
           exact proper_orderWMedianP 24 gb r x ho hpb
+
+/-! ### the state handed to SinkColoring is properly layered: `K:layered` as a theorem (LongestPath layerer) -/
+
+theorem buildLayers_memLayer (g g' : G) (h : buildLayers g = .ok g') : MemLayer g' := by
+  unfold buildLayers at h
+  simp only [bind, Except.bind, pure, Except.pure] at h
+  split at h
+  · cases h
+  · simp only [Except.ok.injEq] at h
+    subst h
+    intro i hi n hn
+    simp only [List.size_toArray, List.length_map, List.length_range] at hi
+    simp only [List.getElem_toArray, List.getElem_map, List.getElem_range] at hn
+    obtain ⟨h1, h2⟩ := List.mem_filter.1 hn
+    refine ⟨by simpa [G.nodeIds] using h1, ?_⟩
+    have : g.layerOf n = (i : Int) := by simpa using h2
+    exact this
+
+/-- for every state phase 1 can return (adjacency consistent both ways, acyclic): after LongestPath layering, the layer-list
+    construction and the ordering phase of the composed model the state is PROPERLY LAYERED in the sense SinkColoring's theorems
+    need (`LayeredWF`), and its layer lists are well formed -/
+theorem layeredWF_after_phase3_longestpath (cfg : Cfg) (hp2 : cfg.p2 = 1) (g1 g2 g3 : G) (hA : AdjLL g1) (hac : hasCycles g1 = .ok false)
+    (hsz : (g1.nodes.size == 1) = false) (h2 : phase2Model cfg g1 = .ok g2)
+    (h3 : phase3Model (fun g => (orderWMedianP 24 g).map (·.1)) g2 = .ok g3) : LayeredWF g3 ∧ LayersWF g3 := by
+  have hwf3 := layersWF_upto_phase3 cfg g1 g2 g3 h2 h3
+  refine ⟨?_, hwf3⟩
+  have h2' := h2
+  unfold phase2Model at h2'
+  simp only [hsz, Bool.false_eq_true, if_false, hp2, beq_self_eq_true, if_true, bind, Except.bind] at h2'
+  cases hl : execLongestPath g1 with
+  | error e => rw [hl] at h2'; cases h2'
+  | ok gl =>
+    rw [hl] at h2'
+    obtain ⟨hwf, hspan, hdn, hbd⟩ := breakWF_after_longestpath g1 gl g2 hA hac hl h2'
+    obtain ⟨hE, hL, hN, hio⟩ := execLongestPath_frame g1 gl hl
+    obtain ⟨bN, bE, bL, _⟩ := buildLayers_frame gl g2 h2'
+    -- the in-lists of g2 are those of g1, the edge store and the edge list too
+    have hi2 : InsOK g2 := by
+      have hi1 := insOK_of_adjL g1 hA.adj
+      have hins : ∀ n, (g2.node n).ins = (g1.node n).ins := by
+        intro n
+        have : g2.node n = gl.node n := by simp only [G.node, bN]
+        rw [this]; exact (hio n).2
+      have hedge : ∀ e, g2.edge e = g1.edge e := by intro e; simp only [G.edge, bE, hE]
+      constructor
+      · intro n x hx
+        rw [hins] at hx
+        obtain ⟨a1, a2, a3⟩ := hi1.ent n x hx
+        rw [hedge, bL, hL, bN, hN]
+        exact ⟨a1, a2, a3⟩
+      · intro n; rw [hins]; exact hi1.nd n
+    have hm2 : MemLayer g2 := buildLayers_memLayer gl g2 h2'
+    have hn2 : NonnegSrc g2 := fun e he => (hbd e he).1
+    unfold phase3Model at h3
+    split at h3
+    · simp only [pure, Except.pure, Except.ok.injEq] at h3
+      subst h3
+      exact layeredWF_of_invariants g2 hi2 hm2 hdn hwf3
+    · simp only [bind, Except.bind] at h3
+      cases hb : breakLongEdges g2 with
+      | error e => rw [hb] at h3; cases h3
+      | ok gb =>
+        rw [hb] at h3
+        simp only at h3
+        have hpb := (breakLongEdges_proper g2 gb hwf hdn hb).2
+        obtain ⟨hib, hmb⟩ := breakLongEdges_layered g2 gb hwf hi2 hm2 hn2 hb
+        cases ho : orderWMedianP 24 gb with
+        | error e => simp [ho, Except.map] at h3
+        | ok p =>
+          obtain ⟨r, x⟩ := p
+          simp only [ho, Except.map, Except.ok.injEq] at h3
+          subst h3
+          exact layeredWF_orderWMedianP 24 gb r x ho hib hmb hpb hwf3
+
+/-- **C04 with SinkColoring (the default positioner) on the pipeline, nothing assumed (LongestPath layerer)**: for every non-empty
+    edge list, every option set with the LongestPath layerer, either breaker and every component of more than one node — whenever
+    phases 1–3 of the composed model and SinkColoring return, consecutive nodes of every band are at least NodeSpacing apart.
+    The structural contract `K:layered` of `C04_sinkcoloring_separated_on_pipeline` is a theorem here. -/
+theorem C04_sinkcoloring_separated_longestpath_any_input (cfg : Cfg) (es : InEdges) (hp2 : cfg.p2 = 1)
+    (cs : List (G × List Nat)) (hcs : preProcess cfg es = .ok cs) :
+    ∀ c ∈ cs, 2 ≤ c.1.nodes.size → ∀ alg g1 g2 g3, phase1 alg c.1 = .ok g1 → phase2Model cfg g1 = .ok g2 →
+      phase3Model (fun g => (orderWMedianP 24 g).map (·.1)) g2 = .ok g3 →
+      ∀ g' d, execSinkColoring cfg.ns g3 = .ok (g', d) →
+        ∀ l ∈ g3.layers.toList, ∀ p ∈ adjPairs l.nodes, (g'.node p.1).x + (g'.node p.1).w + cfg.ns ≤ (g'.node p.2).x := by
+  intro c hc hn2 alg g1 g2 g3 h1 h2 h3 g' d h4
+  have hn : (c.1.nodes.size == 1) = false := by simp; omega
+  have hA := adjLL_phase1 alg c.1 g1 (adjLL_preProcess cfg es cs hcs c hc) h1
+  have hac := phase1_ok_acyclic alg c.1 g1 hn h1
+  have hsz : (g1.nodes.size == 1) = false := by
+    have := (statEq_phase1 alg c.1 g1 h1).1
+    simp; omega
+  obtain ⟨hL, hwf⟩ := layeredWF_after_phase3_longestpath cfg hp2 g1 g2 g3 hA hac hsz h2 h3
+  exact C04_sinkcoloring_separated_layered cfg.ns g3 hwf hL g' d h4
+
+/-- **`K:layered` as a theorem (LongestPath layerer)**: for every edge list and option set with the LongestPath layerer, either breaker
+    and every component of more than one node, the state the ordering phase of the composed model returns is properly layered
+    (`LayeredWF`) and its layer lists are well formed -/
+theorem C04_layered_contract_holds_longestpath_any_input (cfg : Cfg) (es : InEdges) (hp2 : cfg.p2 = 1)
+    (cs : List (G × List Nat)) (hcs : preProcess cfg es = .ok cs) :
+    ∀ c ∈ cs, 2 ≤ c.1.nodes.size → ∀ alg g1 g2 g3, phase1 alg c.1 = .ok g1 → phase2Model cfg g1 = .ok g2 →
+      phase3Model (fun g => (orderWMedianP 24 g).map (·.1)) g2 = .ok g3 →
+      LayeredWF g3 ∧ LayersWF g3 := by
+  intro c hc hn2 alg g1 g2 g3 h1 h2 h3
+  have hn : (c.1.nodes.size == 1) = false := by simp; omega
+  have hA := adjLL_phase1 alg c.1 g1 (adjLL_preProcess cfg es cs hcs c hc) h1
+  have hac := phase1_ok_acyclic alg c.1 g1 hn h1
+  have hsz : (g1.nodes.size == 1) = false := by
+    have := (statEq_phase1 alg c.1 g1 h1).1
+    simp; omega
+  exact layeredWF_after_phase3_longestpath cfg hp2 g1 g2 g3 hA hac hsz h2 h3
+
+/-- **C12 with SinkColoring on the pipeline, nothing assumed (LongestPath layerer)**: … and the centres of every band stay in the
+    order the ordering phase chose (strictly increasing along every layer list, for a positive NodeSpacing and non-negative widths) -/
+theorem C12_sinkcoloring_keeps_order_longestpath_any_input (cfg : Cfg) (hns : 0 < cfg.ns) (es : InEdges) (hp2 : cfg.p2 = 1)
+    (cs : List (G × List Nat)) (hcs : preProcess cfg es = .ok cs) :
+    ∀ c ∈ cs, 2 ≤ c.1.nodes.size → ∀ alg g1 g2 g3, phase1 alg c.1 = .ok g1 → phase2Model cfg g1 = .ok g2 →
+      phase3Model (fun g => (orderWMedianP 24 g).map (·.1)) g2 = .ok g3 →
+      ∀ g' d, execSinkColoring cfg.ns g3 = .ok (g', d) → ∀ l ∈ g3.layers.toList, (∀ n ∈ l.nodes, 0 ≤ (g'.node n).w) →
+        StrictlyIncreasing (centres (l.nodes.map fun n => (g'.node n).x) (l.nodes.map fun n => (g'.node n).w)) := by
+  intro c hc hn2 alg g1 g2 g3 h1 h2 h3 g' d h4 l hl hw
+  obtain ⟨hL, hwf⟩ := C04_layered_contract_holds_longestpath_any_input cfg es hp2 cs hcs c hc hn2 alg g1 g2 g3 h1 h2 h3
+  exact C12_sinkcoloring_keeps_order_layered cfg.ns hns g3 hwf hL g' d h4 l hl hw
 
 /-- the premises are satisfiable and the chain is exercised: a 3-cycle with a chord and a pendant path, LongestPath layerer -/
 example : ∃ cs, preProcess { p2 := 1 } [("a", "b"), ("b", "c"), ("c", "a"), ("a", "c"), ("c", "d"), ("d", "e"), ("a", "e")] = .ok cs :=
